@@ -873,11 +873,11 @@ def describe(case):
 def gen_cases(ctx):
     rng = ctx.rng
     cases = []
-    for _ in range(ctx.scale(45, 450)):
+    for _ in range(ctx.scale(100, 1000)):
         cases.append(tame(gen_case_rat(rng)))
-    for _ in range(ctx.scale(10, 100)):
-        cases.append(tame(probe_case(rng)))
     for _ in range(ctx.scale(25, 250)):
+        cases.append(tame(probe_case(rng)))
+    for _ in range(ctx.scale(50, 500)):
         cases.append(gen_case_torch(rng))
     return cases
 
